@@ -154,8 +154,39 @@ func firstLine(s string) string {
 func Explore(sc *Scenario, deadline time.Time) *Result {
 	start := time.Now()
 	res := &Result{Outcomes: map[string]int64{}}
-	type item struct{ prefix []int }
-	stack := []item{{nil}}
+	// depth-first search with one frame per executed execution whose deviations are not exhausted
+	// yet (children are generated on demand: materialising every child prefix up front needs
+	// memory proportional to executions x trace length, which unbounded exploration cannot afford)
+	type frame struct {
+		trace      []sched.PointRec
+		start      int   // deviations are allowed at points >= start
+		cp, cf, cc []int // deviations spent before point i
+		i, alt     int   // next candidate: point i, alternative alt
+	}
+	var stack []*frame
+	next := func(fr *frame) []int {
+		for fr.i >= fr.start {
+			pt := fr.trace[fr.i]
+			for fr.alt < pt.N {
+				alt := fr.alt
+				fr.alt++
+				dp, df, dc := pt.Cost(alt)
+				if fr.cp[fr.i]+dp > sc.Bounds.Preemptions || fr.cf[fr.i]+df > sc.Bounds.Faults || fr.cc[fr.i]+dc > sc.Bounds.Crashes {
+					continue
+				}
+				child := make([]int, fr.i+1)
+				for k := 0; k < fr.i; k++ {
+					child[k] = fr.trace[k].Chosen
+				}
+				child[fr.i] = alt
+				return child
+			}
+			fr.i--
+			fr.alt = 1
+		}
+		return nil
+	}
+	pending := [][]int{nil} // the first execution: empty prefix
 	seenSig := map[string]bool{}
 	// state cache: happens-before state key -> non-dominated deviation vectors it was reached with
 	visited := map[sched.Hash][]cost{}
@@ -182,7 +213,20 @@ func Explore(sc *Scenario, deadline time.Time) *Result {
 		}
 	}
 	defer func() { sched.VisitHook = nil; res.States = int64(len(visited)) }()
-	for len(stack) > 0 {
+	for {
+		var prefix []int
+		if len(pending) > 0 {
+			prefix, pending = pending[0], nil
+		} else {
+			for len(stack) > 0 && prefix == nil {
+				if prefix = next(stack[len(stack)-1]); prefix == nil {
+					stack = stack[:len(stack)-1]
+				}
+			}
+			if prefix == nil && len(stack) == 0 {
+				break
+			}
+		}
 		if sc.MaxExecs > 0 && res.Executions >= sc.MaxExecs {
 			res.Capped = true
 			break
@@ -191,9 +235,7 @@ func Explore(sc *Scenario, deadline time.Time) *Result {
 			res.Capped = true
 			break
 		}
-		it := stack[len(stack)-1]
-		stack = stack[:len(stack)-1]
-		e, in, v := RunOnce(sc, it.prefix, false)
+		e, in, v := RunOnce(sc, prefix, false)
 		res.Executions++
 		res.Points += int64(len(e.Trace))
 		if len(e.Trace) > res.MaxTrace {
@@ -222,25 +264,15 @@ func Explore(sc *Scenario, deadline time.Time) *Result {
 			res.Violations = append(res.Violations, *v)
 		}
 		cleanup(in)
-		// children: deviate at every point at or beyond the prefix
-		var p, f, c int
-		for i, pt := range e.Trace {
-			if i >= len(it.prefix) {
-				for alt := pt.N - 1; alt >= 1; alt-- {
-					dp, df, dc := pt.Cost(alt)
-					if p+dp > sc.Bounds.Preemptions || f+df > sc.Bounds.Faults || c+dc > sc.Bounds.Crashes {
-						continue
-					}
-					child := make([]int, i+1)
-					for k := 0; k < i; k++ {
-						child[k] = e.Trace[k].Chosen
-					}
-					child[i] = alt
-					stack = append(stack, item{child})
-				}
-			}
+		// children: deviate at every point at or beyond the prefix (deepest point first)
+		fr := &frame{trace: e.Trace, start: len(prefix), i: len(e.Trace) - 1, alt: 1}
+		fr.cp, fr.cf, fr.cc = make([]int, len(e.Trace)+1), make([]int, len(e.Trace)+1), make([]int, len(e.Trace)+1)
+		for k, pt := range e.Trace {
 			dp, df, dc := pt.Cost(pt.Chosen)
-			p, f, c = p+dp, f+df, c+dc
+			fr.cp[k+1], fr.cf[k+1], fr.cc[k+1] = fr.cp[k]+dp, fr.cf[k]+df, fr.cc[k]+dc
+		}
+		if len(e.Trace) > len(prefix) {
+			stack = append(stack, fr)
 		}
 	}
 	res.WallS = time.Since(start).Seconds()
